@@ -1,5 +1,9 @@
 import Afkak.Monitor.C14
-/-! # C03 — full-strength statements that are NOT (yet) proved. -/
+/-! # C03 — full-strength statements stated apart from their proofs.
+
+`C03_commit_reports` is PROVED (session 5): `Afkak.Props.C03.C03_commit_reports` in `AfkakProps/C03.lean`
+(invariant `E.He`, `AfkakProofs/Consumer/E_1..E_3`, `A5_CR1.run_e`); the definition stays here because the theorem is
+stated as `Open.C03.C03_commit_reports`. -/
 namespace Afkak.Props.Open.C03
 open Afkak.Consumer Afkak.Monitor
 
